@@ -63,6 +63,8 @@ func runLoss(bin, victim, phase string, kill bool, logDir string, emit emitter) 
 		return err
 	}
 	defer lb.Close()
+	// the load balancer keeps the lost node in rotation: a redial that is given to it is accepted and closed
+	lb.NoFailover(true)
 	s := &Step{Op: "Loss", Nodes: ids, Victim: victim, Kill: kill, Phase: phase, GraceMs: int(grace / time.Millisecond)}
 	check := func(name string, ok bool, info string) {
 		s.Checks = append(s.Checks, Check{Name: name, OK: ok, Info: info})
